@@ -93,6 +93,9 @@ def generate(seed, tier):
                 r = ['r'] + c['at'] + c['at'][2:]
                 if 'arr' not in c and r not in leaves_:
                     leaves_.append(r)
+                elif 'arr' in c:
+                    # spill reference (B1#) to an array formula elsewhere
+                    leaves_.append(['f', 'SUM', ['an'] + c['at']])
         fr.shuffle(leaves_)
         if fr.chance(.4):
             # names first: two different names (both may be undefined) in
@@ -317,6 +320,8 @@ def leaves(e, conds=(), icpt=False, sw=False):
     """Like cyc.occurrences but also yields error literals and reports the
     function names met."""
     k = e[0]
+    if k == 'an':     # spill reference: unresolved when its sheet / book is
+        e, k = ['r', e[1], e[2], e[3], e[4], e[3], e[4]], 'r'
     if k in ('r', 'nm', 'e'):
         yield e, conds, icpt, sw
     elif k == 'op':
